@@ -85,6 +85,7 @@ type Sched struct {
 	Policy      string                  // "random" | "pct" | "script"
 	Script      []Step
 	PCTChange   float64
+	Choose      func(parked []*G, rnd *rand.Rand) *G // scenario-specific bias; nil result = fall back to Policy
 
 	Log     []Event
 	Panics  []string // panics raised by managed goroutines
@@ -245,6 +246,11 @@ func (s *Sched) namedLive() int {
 }
 
 func (s *Sched) pick(p []*G, stepNo int) *G {
+	if s.Choose != nil {
+		if g := s.Choose(p, s.rng); g != nil {
+			return g
+		}
+	}
 	switch s.Policy {
 	case "pct":
 		if s.rng.Float64() < s.PCTChange {
